@@ -48,6 +48,20 @@ func checkIs(scen string, in IsIn) []*mc.Violation {
 	if ab != ba {
 		out = append(out, mc.V(scen, "is-symmetric", in, "a.Is(b) == b.Is(a)", fmt.Sprintf("%v vs %v", ab, ba), archFeatures(in.A, in.B)...))
 	}
+	// asking does not change the operands, and an architecture compared with itself - the very same object on both sides -
+	// answers like two equal objects do
+	if a2, _ := dependency.ParseArch(in.A); *a2 != *a {
+		out = append(out, mc.V(scen, "is-symmetric", in, fmt.Sprintf("operand unchanged by Is: %+v", *a2), fmt.Sprintf("%+v", *a), archFeatures(in.A, in.B)...))
+	}
+	if in.A == in.B {
+		var self bool
+		if p, msg := mc.Guard(func() { self = a.Is(a) }); p {
+			return []*mc.Violation{mc.V(scen, "is-returns", in, "no panic", msg)}
+		}
+		if self != ab {
+			out = append(out, mc.V(scen, "is-symmetric", in, fmt.Sprintf("a.Is(a) on one object = %v, as for two equal objects", ab), fmt.Sprint(self), archFeatures(in.A, in.B)...))
+		}
+	}
 	ra, rb := gen.DenoteArch(in.A), gen.DenoteArch(in.B)
 	// the library's own wildcard predicate agrees with the denotation: a wildcard has an 'any' component, 'all' is none
 	if w := a.IsWildcard(); w != !ra.Concrete() {
